@@ -776,7 +776,7 @@ impl InstrFormat for StdHooks06 {
             )));
         }
         f.write_i32(instr.time)?;
-        f.write_u16(instr.opcode)?;
+        f.write_u16(llir::non_terminal_opcode(emitter, instr.opcode)?)?;
         f.write_u16(12)?;  // this version writes argsize rather than instr size
         f.write_all(&instr.args_blob)?;
         Ok(())
@@ -818,7 +818,7 @@ impl InstrFormat for StdHooks10 {
 
     fn write_instr(&self, f: &mut BinWriter, emitter: &dyn Emitter, instr: &RawInstr) -> WriteResult {
         f.write_i32(instr.time)?;
-        f.write_u16(instr.opcode)?;
+        f.write_u16(llir::non_terminal_opcode(emitter, instr.opcode)?)?;
         f.write_u16(llir::header_field(emitter, "instruction size", self.instr_size(instr) as i64)?)?;
         f.write_all(&instr.args_blob)?;
         Ok(())
